@@ -1028,7 +1028,7 @@ def replay(rep):  # noqa: F811
 
 
 # ---- listing (C17): `units for` / `factorize` checked against the evaluator itself (bounded stand-in / replay) ----
-_LIST_Q = [('force', 'kg m / s^2'), ('velocity', 'm/s'), ('length', '3 m'), ('energy', 'J'), ('frequency', '1/s'), ('area', 'm^2'), ('pressure', 'Pa'),
+_LIST_Q = [('current', 'A'), ('amount', 'mol'), ('force', 'kg m / s^2'), ('velocity', 'm/s'), ('length', '3 m'), ('energy', 'J'), ('frequency', '1/s'), ('area', 'm^2'), ('pressure', 'Pa'),
            ('time', 's'), ('angle', 'radian'), ('power', 'W'), ('charge', 'A s'), ('information', 'byte'), ('acceleration', 'm/s^2'), ('1', '7')]
 
 
@@ -1043,6 +1043,10 @@ def _dims_of(line):
         rest = ul[0][9:]
         return rest.rsplit(' | ', 1)[1].strip() if ' | ' in rest else ''
     return (raw.split(' | ') + [''])[1].strip()
+
+
+_LIST_MUST = {'current': ['ampere', 'abampere'], 'amount': ['mole'], 'length': ['meter', 'foot'], 'time': ['second', 'minute'], 'force': ['newton'], 'energy': ['joule'], '1': ['kilo', 'percent'],
+              'frequency': ['hertz'], 'area': ['acre'], 'information': ['byte']}
 
 
 def _dims_dict(d):
@@ -1094,6 +1098,9 @@ def _listing_witness():
             if len(set(names)) != len(names):
                 dup = [n for n in names if names.count(n) > 1][0]
                 return bad(line, 'each unit once', text, 'the unit %s is listed %d times' % (dup, names.count(dup)))
+            for must in _LIST_MUST.get(qname, []):
+                if must not in names:
+                    return bad(line, 'a listing that contains %s' % must, text, 'the unit %s is missing from the listing' % must)
             cats = [g[0] for g in groups]
             if len(set(cats)) != len(cats):
                 return bad(line, 'one group per category', text, 'the category %s appears in two groups' % [c for c in cats if cats.count(c) > 1][0])
@@ -1106,7 +1113,7 @@ def _listing_witness():
             a, b = replies[qname][0], replies[expr][0]
             diff = sorted(set(a) ^ set(b))[:5]
             return bad('units for %s' % expr, 'the same answer as `units for %s`' % qname, '', 'quantity name and expression disagree: %s' % diff)
-    for qname, expr in _LIST_Q[:9]:
+    for qname, expr in _LIST_Q[:11] + [('specific_volume', 'm^3/kg'), ('illuminance', 'cd sr / m^2'), ('radiation_exposure', 'A s / kg'), ('charge', 'A s')]:
         replies = {}
         for x in (qname, expr):
             line = 'factorize %s' % x
